@@ -267,6 +267,9 @@ func (e *SpecEnv) eval(n *Node) TV {
 	case "call":
 		return e.evalCall(n)
 	case "forall", "exists":
+		if r, ok := e.expandBoundedForall(n); ok {
+			return r
+		}
 		env := e
 		var vars []*Term
 		var guards []*Term
@@ -840,6 +843,22 @@ func (e *SpecEnv) evalCall(n *Node) TV {
 			sfail("as_nonnil(interface)")
 		}
 		return boolTV(Neq(Rg(iv.Data), IntConst(0)))
+	case "sameregion":
+		rgOf := func(v TV) *Term {
+			switch x := v.V.(type) {
+			case *SliceV:
+				return Rg(x.Base)
+			case *Term:
+				if x.Sort == SAddr {
+					return Rg(x)
+				}
+			case *IfaceV:
+				return Rg(x.Data)
+			}
+			sfail("sameregion: pointer, slice or interface expected")
+			return nil
+		}
+		return boolTV(Eq(rgOf(e.eval(args[0])), rgOf(e.eval(args[1]))))
 	case "samebase":
 		a, b := e.eval(args[0]).V.(*SliceV), e.eval(args[1]).V.(*SliceV)
 		return boolTV(And(Eq(a.Base, b.Base), Eq(a.Off, b.Off)))
@@ -942,4 +961,66 @@ func (e *SpecEnv) lvalAddr(n *Node) (*Term, types.Type) {
 	}
 	sfail("expression is not addressable")
 	return nil, nil
+}
+
+// expandBoundedForall: forall i :: lo <= i && i < hi ==> body, with constant lo, hi (hi-lo <= 64),
+// is expanded into the conjunction of its instances (keeps small cases quantifier-free).
+func (e *SpecEnv) expandBoundedForall(n *Node) (TV, bool) {
+	if n.Kind != "forall" || len(n.Binders) != 1 {
+		return TV{}, false
+	}
+	body := n.Args[0]
+	for body.Kind == "paren" {
+		body = body.Args[0]
+	}
+	if body.Kind != "binary" || body.Op != "==>" {
+		return TV{}, false
+	}
+	g := body.Args[0]
+	for g.Kind == "paren" {
+		g = g.Args[0]
+	}
+	if g.Kind != "binary" || g.Op != "&&" {
+		return TV{}, false
+	}
+	name := n.Binders[0].Name
+	isVar := func(x *Node) bool { return x.Kind == "ident" && x.Name == name }
+	l, r := g.Args[0], g.Args[1]
+	if !(l.Kind == "binary" && l.Op == "<=" && isVar(l.Args[1]) && r.Kind == "binary" && r.Op == "<" && isVar(r.Args[0])) {
+		return TV{}, false
+	}
+	constOf := func(x *Node) (int64, bool) {
+		defer func() { recover() }()
+		v := e.eval(x)
+		if v.U != nil && v.U.IsInt64() {
+			return v.U.Int64(), true
+		}
+		if t, ok := v.V.(*Term); ok {
+			t = Subst(t, e.st.substMap())
+			if t.IsConst() && t.Sort.IsBV() {
+				return t.Signed().Int64(), true
+			}
+		}
+		return 0, false
+	}
+	lo, ok1 := constOf(l.Args[0])
+	hi, ok2 := constOf(r.Args[1])
+	if !ok1 || !ok2 || hi-lo > 64 || hi < lo {
+		return TV{}, false
+	}
+	t := e.lookupType(n.Binders[0].Type)
+	if t == nil {
+		return TV{}, false
+	}
+	var cs []*Term
+	for k := lo; k < hi; k++ {
+		env := e.with(name, TV{V: BVc(k, scalarSort(t).Width()), T: t})
+		v := env.eval(body.Args[1])
+		b, ok := v.V.(*Term)
+		if !ok || b.Sort != SBool {
+			return TV{}, false
+		}
+		cs = append(cs, b)
+	}
+	return boolTV(And(cs...)), true
 }
